@@ -161,6 +161,8 @@ def o4(W, ob):
     # the lookup side reads the cut-off from that field only (C03.O2)
 
 
+from . import helpers
+
 OBLIGATIONS = [
     ('C10.O1', 'gossip out', 'every Input packet carries the connect_status it was given; the session passes local_connect_status at every '
      'send_input/poll call.', o1),
@@ -171,4 +173,5 @@ OBLIGATIONS = [
     ('C10.O4', 'the adopted cut-off reaches the lookup', 'the last_frame handed to disconnect_player_at_frame is stored to local_connect_status[h].last_frame.', o4),
     ('C10.O5', 'the pending disconnect frame takes part in the rollback (= C01.O7)', 'see C01.O7', c01.o7),
     ('C10.O6', 'same cut-off predicate everywhere (= C03.O2)', 'see C03.O2', c03.o2),
+    ('C10.H', 'helpers the rules above rely on', 'the bodies of the helpers named by this property\'s rules compute what the rules assume (endpoint_getters); see rules/helpers.py', helpers.bundle('endpoint_getters')),
 ]
